@@ -305,34 +305,72 @@ def chandrupatla(ctx, rep):
     point_names = set(al) | {'xt'}
     ev_names = {c.args[0].id for c in evals if c.args and isinstance(c.args[0], ast.Name)}
     pts = set(al) | ev_names
+    def selected_from(v):
+        """Expressions one of which the value of `v` always is (np.choose / np.where / a selector helper), or None."""
+        if isinstance(v, ast.Name):
+            return [v]
+        if isinstance(v, ast.Call) and call_name(v) in ('choose', 'where'):
+            return _choices(v)
+        if isinstance(v, ast.Call):
+            g = prog.functions.get(prog.resolve(fn.module, v.func) or '')
+            if g is not None and g.cls is None and not v.keywords and len(v.args) == len(g.params):
+                rets_g = [r for r in walk_no_nested(g.node) if isinstance(r, ast.Return) and r.value is not None]
+                if len(rets_g) == 1 and isinstance(rets_g[0].value, ast.Call) and call_name(rets_g[0].value) in ('choose', 'where'):
+                    inner = _choices(rets_g[0].value)
+                    if all(isinstance(x, ast.Name) and x.id in g.params for x in inner):
+                        return [v.args[g.params.index(x.id)] for x in inner]
+        return None
+
+    def kind_of(v):
+        ch = selected_from(v)
+        if ch is not None:
+            if all(isinstance(x, ast.Name) and x.id in pts for x in ch):
+                return 'point'
+            return 'nonpoint' if all(isinstance(x, (ast.Name, ast.Constant)) for x in ch) else 'unknown'
+        if isinstance(v, (ast.BinOp, ast.Constant, ast.UnaryOp)):
+            return 'nonpoint'
+        return 'unknown'
+
+    def pairs_of(s_):
+        if isinstance(s_, ast.Assign) and isinstance(s_.targets[0], ast.Name):
+            return [(s_.targets[0].id, s_.value)]
+        if isinstance(s_, ast.Assign) and isinstance(s_.targets[0], ast.Tuple) and isinstance(s_.value, ast.Tuple) and len(s_.targets[0].elts) == len(s_.value.elts):
+            return [(t_.id, v_) for t_, v_ in zip(s_.targets[0].elts, s_.value.elts) if isinstance(t_, ast.Name)]
+        return []
     grew = True
     while grew:
         grew = False
         for s in ast.walk(lp):
-            if isinstance(s, ast.Assign) and isinstance(s.targets[0], ast.Name) and s.targets[0].id not in pts:
-                v = s.value
-                if isinstance(v, ast.Name) and v.id in pts:
-                    pts.add(s.targets[0].id)
-                    grew = True
-                if isinstance(v, ast.Call) and call_name(v) in ('choose', 'where') and all(
-                        isinstance(x, ast.Name) and x.id in pts for x in _choices(v)):
-                    pts.add(s.targets[0].id)
+            for name, v in pairs_of(s):
+                if name not in pts and kind_of(v) == 'point':
+                    pts.add(name)
                     grew = True
     rets = [n for n in walk_no_nested(fn.node) if isinstance(n, ast.Return)]
     rv = rets[-1].value if rets else None
-    rep.check('D2.contain', fn, rets[-1] if rets else fn.node.name, isinstance(rv, ast.Name) and rv.id in pts,
-              f'the returned `{short(rv)}` only ever holds bracket ends or clipped iterates',
-              f'the returned `{short(rv)}` can hold a value that is not a bracket end or a clipped iterate', construct='returned point')
-    bad = []
+    if isinstance(rv, ast.Name) and rv.id in pts:
+        rep.ok('D2.contain', fn, rets[-1], f'the returned `{short(rv)}` only ever holds bracket ends or clipped iterates', construct='returned point')
+    else:
+        defs_rv = [v for s in ast.walk(fn.node) for name, v in pairs_of(s) if isinstance(rv, ast.Name) and name == rv.id]
+        if defs_rv and any(kind_of(v) == 'nonpoint' for v in defs_rv):
+            rep.bad('D2.contain', fn, rets[-1], f'the returned `{short(rv)}` can hold a value that is not a bracket end or a clipped iterate', construct='returned point')
+        else:
+            rep.undecided('D2.contain', fn, rets[-1] if rets else fn.node.name, f'what the returned `{short(rv)}` can hold is not derived', construct='returned point')
+    bad, unknown = [], []
     for s in ast.walk(lp):
-        if isinstance(s, ast.Assign) and isinstance(s.targets[0], ast.Name) and s.targets[0].id in pts and s.targets[0].id not in ev_names:
-            v = s.value
-            okv = (isinstance(v, ast.Name) and v.id in pts) or (isinstance(v, ast.Call) and call_name(v) in ('choose', 'where') and all(
-                isinstance(x, ast.Name) and x.id in pts for x in _choices(v)))
-            if not okv:
-                bad.append(s)
-    rep.check('D2.contain', fn, bad[0] if bad else lp, not bad, 'a, b, c, xm are only ever assigned bracket points',
-              'a tracked bracket point receives a value that is not one of the bracket points', construct='point updates')
+        for name, v in pairs_of(s):
+            if name in pts and name not in ev_names:
+                k = kind_of(v)
+                if k == 'nonpoint':
+                    bad.append(s)
+                elif k == 'unknown':
+                    unknown.append(s)
+    if bad:
+        rep.bad('D2.contain', fn, bad[0], 'a tracked bracket point receives a value that is not one of the bracket points', construct='point updates')
+    elif unknown:
+        rep.undecided('D2.contain', fn, unknown[0], 'a tracked bracket point is assigned from an expression that is not recognised as a selection among bracket points',
+                      construct='point updates')
+    else:
+        rep.ok('D2.contain', fn, lp, 'a, b, c, xm are only ever assigned bracket points', construct='point updates')
     # D4 scalar vs vector formula
     scalar_t = vector_t = None
     for s in ast.walk(lp):
